@@ -815,3 +815,116 @@ def evalf(s, env, funcs=None):
         return r
 
     return go(lift(s).n)
+
+
+# ----------------------------------------------------------------------------------------------------
+# high-precision numeric evaluation (falsification before proof; never used to *prove* anything)
+# ----------------------------------------------------------------------------------------------------
+def evalmp(s, env, digits=60):
+    """Evaluate with mpmath at the given number of digits.  Uninterpreted functions get deterministic
+    pseudo-random values depending on their (rounded) arguments, so congruence is respected."""
+    import mpmath as mp
+    import hashlib
+
+    mp.mp.dps = digits
+    consts = {
+        "pi": lambda: mp.pi, "euler_gamma": lambda: mp.euler, "I": lambda: mp.mpc(0, 1),
+        "zeta2": lambda: mp.zeta(2), "zeta3": lambda: mp.zeta(3), "zeta4": lambda: mp.zeta(4), "zeta5": lambda: mp.zeta(5),
+        "zeta6": lambda: mp.zeta(6), "zeta7": lambda: mp.zeta(7),
+    }
+    fn = {
+        "ln": mp.log, "exp": mp.exp, "atan": mp.atan, "sqrt": mp.sqrt, "abs": abs, "sin": mp.sin, "cos": mp.cos,
+        "tan": mp.tan, "tanh": mp.tanh, "root": lambda x, q: mp.power(x, mp.mpf(1) / q), "pow": lambda x, y: mp.power(x, y),
+        "Gamma": mp.gamma, "digamma": mp.digamma,
+    }
+    memo = {}
+
+    def unint(f, args):
+        h = hashlib.sha256((f + "|" + "|".join(mp.nstr(a, 25) for a in args)).encode()).digest()
+        re = int.from_bytes(h[:8], "big") / 2**64
+        im = int.from_bytes(h[8:16], "big") / 2**64
+        return mp.mpc(0.5 + re, im - 0.5)
+
+    def go(n):
+        if n in memo:
+            return memo[n]
+        t = _nodes[n]
+        op = t[0]
+        if op == "c":
+            r = mp.mpf(t[1].numerator) / t[1].denominator
+        elif op == "v":
+            v = env[t[1]]
+            r = mp.mpf(v.numerator) / v.denominator if isinstance(v, Fraction) else mp.mpmathify(v)
+        elif op == "bvar":
+            r = env[t[1]]
+        elif op == "true":
+            r = True
+        elif op == "false":
+            r = False
+        elif op == "+":
+            r = go(t[1]) + go(t[2])
+        elif op == "*":
+            r = go(t[1]) * go(t[2])
+        elif op == "/":
+            r = go(t[1]) / go(t[2])
+        elif op == "neg":
+            r = -go(t[1])
+        elif op == "^":
+            r = go(t[1]) ** t[2]
+        elif op == "app":
+            f = t[1]
+            args = [go(a) for a in t[2]]
+            if f in consts and not args:
+                r = consts[f]()
+            elif f in fn:
+                r = fn[f](*args)
+            else:
+                r = unint(f, args)
+        elif op == "ite":
+            r = go(t[2]) if go(t[1]) else go(t[3])
+        elif op in ("<", "<="):
+            a, b = mp.re(go(t[1])), mp.re(go(t[2]))
+            r = a < b if op == "<" else a <= b
+        elif op == "==":
+            r = go(t[1]) == go(t[2])
+        elif op == "!=":
+            r = go(t[1]) != go(t[2])
+        elif op == "and":
+            r = go(t[1]) and go(t[2])
+        elif op == "or":
+            r = go(t[1]) or go(t[2])
+        elif op == "not":
+            r = not go(t[1])
+        elif op == "//":
+            r = mp.floor(mp.re(go(t[1])) / mp.re(go(t[2])))
+        elif op == "%":
+            a, b = mp.re(go(t[1])), mp.re(go(t[2]))
+            r = a - b * mp.floor(a / b)
+        else:
+            raise Unsupported(f"evalmp: {op}")
+        memo[n] = r
+        return r
+
+    return go(lift(s).n)
+
+
+def magnitude(s, env, digits=60):
+    """(value, scale): value of s and the largest magnitude among the top-level summands (for relative tests)."""
+    import mpmath as mp
+
+    s = lift(s)
+    terms, stack = [], [(s.n, 1)]
+    while stack:
+        n, sg = stack.pop()
+        t = _nodes[n]
+        if t[0] == "+":
+            stack.append((t[1], sg))
+            stack.append((t[2], sg))
+        elif t[0] == "neg":
+            stack.append((t[1], -sg))
+        else:
+            terms.append((n, sg))
+    vals = [evalmp(Sym(n), env, digits) * sg for n, sg in terms]
+    tot = sum(vals, mp.mpf(0))
+    scale = max([abs(v) for v in vals] + [mp.mpf(10) ** (-30)])
+    return tot, scale
